@@ -72,7 +72,10 @@ def run_trace_property(prop, tier, seed, jobs, model_runs=(), assumptions=None, 
     from . import models
     mres = models.run_models(model_runs, tier)
     engine.run_jobs(jobs, prop)
-    violations, known, others, infra = engine.attribute(jobs, prop, also=("ANY",) + ALSO_RULES_OF.get(prop, ()))
+    # in every scenario the histories are valid: a report of the library's invalid-pointer / buffer-overflow handler
+    # means that the operation under test misbehaved, whichever property the scenario belongs to
+    violations, known, others, infra = engine.attribute(
+        jobs, prop, also=("ANY", "C16/ValidReleaseNeverReported", "C17/InBoundsNeverReported") + ALSO_RULES_OF.get(prop, ()))
     if infra:
         for r in infra[:5]:
             log("[infra] %s" % json.dumps(r["v"]))
